@@ -271,7 +271,7 @@ theorem inFragment6_sound (p : RBlock) (h : inFragment6 p = true) :
     cycles, function values), same printed output, same error after the same output; or the machine stops at its
     stack/frame limit -/
 theorem program6 (ast : Block) (r : RBlock) (bc : Bytecode) (hc : compileProgram ast = .ok (r, bc)) (hin : inFragment6 r = true) (F : Nat) :
-    (∃ n s', ∀ k, runSteps bc.code (n + k) (VM.start {} bc) = .error .index s') ∨
+    HitsLimit bc ∨
     match evalB F r {} with
     | .val () st' => ∃ mv n s', (∀ k, runSteps bc.code (n + k) (VM.start {} bc) = .value mv s') ∧
         s'.mem.heap.tree treeDepth [] mv = st'.tree treeDepth [] st'.last ∧ s'.out = st'.out ∧
@@ -301,7 +301,7 @@ theorem program6 (ast : Block) (r : RBlock) (bc : Bytecode) (hc : compileProgram
     included — unless the machine stops at its stack/frame limit -/
 theorem eval_text6 (cc : CharClass) (src : Text) (ast : Block) (r : RBlock) (bc : Bytecode) (hp : parse cc src = .ok ast)
     (hc : compileProgram ast = .ok (r, bc)) (hin : inFragment6 r = true) (F : Nat) :
-    (∃ n out, ∀ k, evalText cc (n + k) src = .error .index out) ∨
+    TextHitsLimit cc src ∨
     match specText cc F src with
     | .value t out => ∃ n, ∀ k, evalText cc (n + k) src = .value t out
     | .error e out => ∃ n, ∀ k, evalText cc (n + k) src = .error e out
@@ -317,11 +317,8 @@ theorem eval_text6 (cc : CharClass) (src : Text) (ast : Block) (r : RBlock) (bc 
       cases hcr : compileR r' with
       | error e => simp [hcr] at hc
       | ok bc' => simp only [hcr] at hc; injection hc with hc; injection hc with h1 h2; rw [h1]
-  rcases hsim with ⟨n, s', hn⟩ | hsim
-  · left
-    refine ⟨n, s'.out, fun k => ?_⟩
-    simp only [evalText, hp, hc, VM.run, hn k]
-    rfl
+  rcases hsim with hlim | hsim
+  · exact .inl (TextHitsLimit.of hp hc hlim)
   right
   simp only [specText, hp, hres, Spec.evalProgram]
   cases hr : evalB F r {} with
